@@ -116,10 +116,10 @@ theorem reconcile_local (cfg : Cfg) (rm : Remotes) (name : String) (s : Sys) (me
     (∀ n, n ≠ name → (reconcile cfg rm name s).1.sets n = s.sets n) ∧
     (finishMem s.w (deriveStatus mem co failing) = mem →
       (reconcile cfg rm name s).1.sets = s.sets ∧ (reconcile cfg rm name s).1.w.store = w1.store) := by
-  have hrec : reconcile cfg rm name s = activePhases cfg rm s mem := by
+  have hrec : reconcile cfg rm name s = activePhasesCore cfg rm s mem := by
     simp only [reconcile, hok.stored, hok.notArchived, hok.alive, hok.active,
       setFinalizer_noop s mem true hok.fin, revisionStep_noop s mem hok.rev]
-    simp
+    simp [activePhases, beforePhases_local rm mem s.w hok.phases.localOnly]
   have hr1 : w1.remoteRefs = [] := hk.2.2.trans hq.refs
   rw [hrec, activePhases_ok cfg rm s mem w1 co failing hok.noDup hok.phases.localOnly he hr1]
   simp only [finish]
